@@ -12,6 +12,7 @@ import EasyNet.Lemmas.RUSpec
 import EasyNet.Lemmas.ConsumerSim
 import EasyNet.Lemmas.BRUSpec
 import EasyNet.Lemmas.Fixed
+import EasyNet.Lemmas.Producer
 namespace EasyNet
 
 theorem RU.refines (sep : Bytes) (limit : Nat) (ke : Bool) (hsep : sep ≠ []) :
@@ -164,5 +165,53 @@ theorem C01_fixed_buffered_roundtrip (n cap : Nat) (hn : 0 < n) (hcap : 0 < cap)
 
 example : (∀ p ∈ ([[1, 2, 3], [4, 5, 6]] : List Bytes), p.length = 3) ∧
     ([[1], [2, 3, 4, 5], [6]] : List Bytes).flatten = ([[1, 2, 3], [4, 5, 6]] : List Bytes).flatten := by decide
+
+/-- **C01, producer and consumer together (separator-framed serializers).**  Take any chunks `bs` that the real
+    producer logic (`AutoSep.produce`: strip trailing separators, refuse data containing the separator — also across the
+    junction with the appended one) emits, each within the limit; cut their concatenation anywhere.  The copying consumer
+    delivers, for each chunk, exactly its payload (the chunk without its separator), in order, once, and retains nothing.
+    So "valid packet" = "packet the producer accepts and that is not longer than the limit". -/
+theorem C01_sep_producer_roundtrip (sep : Bytes) (limit : Nat) (hsep : sep ≠ [])
+    (bs : List Bytes) (hprod : ∀ b ∈ bs, ∃ data, AutoSep.produce sep data = .chunk b)
+    (hlim : ∀ b ∈ bs, b.length ≤ limit + sep.length)
+    (chunks : List Bytes) (hcut : chunks.flatten = bs.flatten) :
+    (Consumer.run RU.init (RU.feed sep limit false) Consumer.new chunks).2
+      = bs.map (fun b => Item.frame (b.take (b.length - sep.length))) ∧
+    Consumer.held (·.buf) (Consumer.run RU.init (RU.feed sep limit false) Consumer.new chunks).1 = [] := by
+  have hval : ∀ b ∈ bs, b = b.take (b.length - sep.length) ++ sep ∧
+      ValidPayload sep limit (b.take (b.length - sep.length)) := by
+    intro b hb
+    obtain ⟨data, hd⟩ := hprod b hb
+    obtain ⟨p, hbp, _, hfo⟩ := AutoSep.produce_valid sep data b hsep hd
+    have hl := hlim b hb
+    have htake : b.take (b.length - sep.length) = p := by
+      rw [hbp]; simp
+    rw [htake]
+    refine ⟨hbp, hfo, ?_⟩
+    rw [hbp] at hl; simp at hl; omega
+  have henc : encodeFrames sep (bs.map (fun b => b.take (b.length - sep.length))) = bs.flatten := by
+    unfold encodeFrames
+    rw [List.map_map]
+    congr 1
+    have : bs.map ((fun x => x ++ sep) ∘ fun b => b.take (b.length - sep.length)) = bs.map id := by
+      apply List.map_congr_left
+      intro b hb
+      exact (hval b hb).1.symm
+    rw [this, List.map_id]
+  have := C01_sep_copy_roundtrip sep limit false hsep (bs.map (fun b => b.take (b.length - sep.length)))
+    (by
+      intro p hp
+      simp only [List.mem_map] at hp
+      obtain ⟨b, hb, rfl⟩ := hp
+      exact (hval b hb).2)
+    chunks (by rw [hcut, henc])
+  refine ⟨?_, this.2⟩
+  rw [this.1, List.map_map]
+  apply List.map_congr_left
+  intro b _
+  simp [frameOf]
+
+example : AutoSep.produce [124, 124] [97, 124] = .refused ∧ AutoSep.produce [124, 124] [97, 124, 98] = .chunk [97, 124, 98, 124, 124] := by
+  decide +kernel
 
 end EasyNet
